@@ -117,6 +117,9 @@ def decode_fmt_template(raw):
             raise SnippetError("undecodable format template byte 0x%02x" % n)
 
 
+_LIB = {}
+
+
 def _text_of(b, o, depth=0):
     """(text, holes) the &str operand denotes: a literal, or a format! template with `{}` replaced by HOLE"""
     if depth > 10 or not isinstance(o, dict):
@@ -147,6 +150,14 @@ def _text_of(b, o, depth=0):
         return _text_of(b, t["args"][0], depth + 1)
     if p in ("std::fmt::format", "alloc::fmt::format"):
         return _template_of(b, t["args"][0], depth + 1)
+    # a private helper that only builds the text (e.g. `fn source(&self) -> String { format!(..) }`)
+    lib = _LIB.get("lib")
+    callee = t["func"].get("fn", {}).get("resolved") or p
+    cb = lib.body(callee) if lib is not None else None
+    if cb is not None and cb is not b and depth < 8:
+        ds = cb.def_sites(0)
+        if len(ds) == 1:
+            return _text_of(cb, {"k": "move", "l": 0, "p": []}, depth + 1)
     return None
 
 
@@ -187,6 +198,7 @@ def _bytes_const(b, o, depth):
 def collect(lib):
     """[{body, static, text, holes, line}] for every Code::parse call in the library crate (tests excluded: lib facts)"""
     out = []
+    _LIB["lib"] = lib
     for b in lib.bodies.values():
         for c in b.calls:
             if c.callee != CODE_PARSE:
